@@ -42,6 +42,11 @@ func (c20Timeout) Error() string   { return "poll: timeout" }
 func (c20Timeout) Timeout() bool   { return true }
 func (c20Timeout) Temporary() bool { return true }
 
+// c20ListErr is an error whose dynamic type is a slice (like go/scanner.ErrorList).
+type c20ListErr []string
+
+func (e c20ListErr) Error() string { return e[0] }
+
 type idErr struct {
 	kind string
 	id   int
@@ -89,6 +94,10 @@ func (r *c20Reader) outcomeErr(k int) error {
 			return &net.OpError{Op: "read", Net: "packet", Err: c20Timeout{}}
 		}
 	case oUnknown:
+		if v%3 == 2 {
+			// an error value of a type that is not comparable (cannot be a map key, `==` on two of them panics)
+			return c20ListErr{fmt.Sprintf("unknown error #%d", k)}
+		}
 		return &idErr{"unknown", k}
 	case oFatal:
 		switch v % 4 {
